@@ -16,6 +16,104 @@ def run_ivh(args):
     return json.loads(p.stdout)
 
 
+# ---- language-server half: ranges in published diagnostics and in symbol / hover / definition replies ---------------------
+IMPORTS = {"from": "from b import helper_b", "import": "import b", "from_two": "from b import helper_b, other_b"}
+ENTRY_LAYOUTS = {
+    "first_line": "{IMP}\n\n\ndef main() -> None:\n{BODY}",
+    "after_blank_lines": "\n\n\n\n{IMP}\n\n\ndef main() -> None:\n{BODY}",
+    "after_multibyte_comment": "# héllo 𝄞 wörld\n{IMP}\n\n\ndef main() -> None:\n{BODY}",
+    "after_docstring": '"""Doc é"""\n\n{IMP}\n\n\ndef main() -> None:\n{BODY}',
+    "last_line_no_newline": "def main() -> None:\n{BODY}\n\n{IMP}",
+}
+ENTRY_BODIES = {
+    "ok": "    pass\n",
+    "unknown_after_multibyte": '    x = "é𝄞" + nope\n',
+    "syntax_error_last_line": "    x = (1 +\n",
+    "type_error": '    x: int = "é"\n',
+}
+DEP_KINDS = {
+    "ok": "pub def helper_b() -> int:\n    return 1\n\n\npub def other_b() -> int:\n    return 2\n",
+    "lex_unterminated_string": 'pub def helper_b() -> str:\n    return "abc\n',
+    "lex_bad_char": "pub def helper_b() -> int:\n    return 1 $ 2\n",
+    "lex_bad_char_multibyte": "pub def helper_b() -> int:\n    return é§ 1\n",
+    "parse_error": "pub def helper_b(:\n    return 1\n",
+    "type_error": "pub def helper_b() -> int:\n    return nope\n",
+    "empty": "",
+    "blank_only": "\n\n",
+    "missing": None,
+}
+DEP_LAYOUTS = {
+    "plain": "{D}",
+    "eight_blank_lines_first": "\n\n\n\n\n\n\n\n{D}",
+    "multibyte_comment_first": "# é𝄞é𝄞é𝄞é𝄞é𝄞é𝄞é𝄞é𝄞é𝄞é𝄞é𝄞é𝄞\n{D}",
+    "long_first_line": "# " + "x" * 300 + "\n{D}",
+    "short_lines_first": "#\n#\n#\n{D}",
+}
+
+
+def lsp_cases(tier):
+    cases = []
+    for ik, imp in IMPORTS.items():
+        for lk, lay in ENTRY_LAYOUTS.items():
+            for bk, body in ENTRY_BODIES.items():
+                for crlf in (False, True):
+                    entry = lay.replace("{IMP}", imp).replace("{BODY}", body)
+                    if crlf:
+                        entry = entry.replace("\n", "\r\n")
+                    for dk, dep in DEP_KINDS.items():
+                        for dl, dlay in DEP_LAYOUTS.items():
+                            if dep is None and dl != "plain":
+                                continue
+                            if tier != "thorough" and (ik != "from" and (bk != "ok" or crlf)):
+                                continue
+                            d = None if dep is None else dlay.replace("{D}", dep)
+                            for dep_open in ((False, True) if (d is not None and (tier == "thorough" or bk == "ok")) else (False,)):
+                                sig = (f"import:{ik}", f"entry:{lk}", f"body:{bk}", f"crlf:{int(crlf)}", f"dep:{dk}", f"deplayout:{dl}", f"depopen:{int(dep_open)}")
+                                cases.append((sig, entry, d, dep_open))
+    return cases
+
+
+def _lsp_run(args):
+    k, chunk = args
+    import os
+
+    d = os.path.join(common.BUILD, "lsprange", f"p{k}")
+    inp = "\n".join(json.dumps({"id": i, "entry": e, "dep": dep, "dep_open": op}) for i, (sig, e, dep, op) in enumerate(chunk)) + "\n"
+    p = subprocess.run([common.IVH, "lsprange", "--dir", d], input=inp, capture_output=True, text=True, encoding="utf-8")
+    if p.returncode != 0:
+        raise common.MachineryError(f"ivh lsprange exited {p.returncode}: {p.stderr[-600:]}")
+    return [json.loads(l) for l in p.stdout.splitlines() if l.startswith("{")]
+
+
+def lsp_half(out, tier):
+    import re
+    import shutil
+    from multiprocessing.pool import ThreadPool
+
+    cases = lsp_cases(tier)
+    idx = list(enumerate(cases))
+    n = common.NCPU
+    chunks = [(k, [(i, c) for i, c in idx[k::n]]) for k in range(n)]
+    with ThreadPool(n) as pool:
+        res = pool.map(lambda a: _lsp_run((a[0], [cc for i, cc in a[1]])), chunks)
+    ranges = diags = 0
+    ok = set()
+    for (k, ch), rs in zip(chunks, res):
+        if len(rs) != len(ch):
+            raise common.MachineryError(f"lsprange answered {len(rs)} of {len(ch)} cases")
+        for (i, (sig, entry, dep, dep_open)), r in zip(ch, rs):
+            ranges += r["ranges"]
+            diags += r["diagnostics"]
+            if r["problems"]:
+                for pr in r["problems"][:2]:
+                    key = "lsp-range|" + re.sub(r"[^A-Za-z0-9_/|:-]+", "_", re.sub(r"\(\d+,\d+\)|\d+", "N", re.sub(r'".*?"', "_", pr)))[:70] + f"|{sig[4]}"
+                    out.fail(key, {"doc": None, "sig": list(sig), "detail": pr, "entry": entry, "dependency_b_incn": dep, "dependency_open_in_editor": dep_open})
+            elif r["ranges"]:
+                ok.add(sig)
+    shutil.rmtree(__import__("os").path.join(common.BUILD, "lsprange"), ignore_errors=True)
+    return {"lsp_cases": len(cases), "lsp_ranges_checked": ranges, "lsp_diagnostics": diags, "lsp_signatures_with_ranges_ok": len(ok)}
+
+
 def run(tier):
     common.build()
     out = common.Outcome("C19", tier)
@@ -32,12 +130,17 @@ def run(tier):
         out.fail(key, case)
         if key in out.known_seen:
             out.known_seen[key][0] = r["known_col_bytes"]
+    lsp = lsp_half(out, tier)
     cov = {
-        "evaluations": r["evaluations"],
-        "distinct_nontrivial": r["classes"],
+        "evaluations": r["evaluations"] + lsp["lsp_ranges_checked"],
+        "distinct_nontrivial": r["classes"] + lsp["lsp_signatures_with_ranges_ok"],
+        **lsp,
         "rule": f"all {r['docs']} documents of <= {maxlen} scalars over {{a, é, 𝄞, LF, CR, space}}; per document every byte offset 0..len+2, every position in the "
         "bounding box (lines+1 x maxcol+1), every span (s,e) with s,e <= len+2 through span_to_range, compile_error_to_diagnostic and format_error; "
-        "distinct = document class (length, multi-byte/astral content, CR/CRLF, empty lines, final newline, line count)",
+        "distinct = document class (length, multi-byte/astral content, CR/CRLF, empty lines, final newline, line count); language-server half: a fresh real server "
+        "(LspService driven to quiescence) per case of 3 import spellings x 5 entry layouts x 4 entry bodies x LF/CRLF x 9 dependency kinds (ok, three lex errors, parse error, type error, "
+        "empty, blank, missing) x 5 dependency layouts x dependency open in the editor or only on disk (quick: the product is restricted as stated in the code); every range of every published "
+        "diagnostic (incl. related information) and of documentSymbol / hover / definition replies must be a valid position pair of the document it is about",
         "samples": ["", "a\n", "é𝄞\r\n a", {"doc": "é", "offsets": [0, 1, 2, 3, 4], "positions": "(0..2)x(0..2)", "spans": "(0..4)x(0..4)"}],
         "exhaustive": True,
         "documents": r["docs"],
@@ -56,6 +159,11 @@ def replay(path):
     common.build()
     rec = json.load(open(path, encoding="utf-8"))
     doc = rec["case"]["doc"]
+    if doc is None and "entry" in rec["case"]:
+        c = rec["case"]
+        rs = _lsp_run((99, [(tuple(c["sig"]), c["entry"], c["dependency_b_incn"], c["dependency_open_in_editor"])]))
+        print(json.dumps(rs, ensure_ascii=False, indent=1))
+        return 1 if rs[0]["problems"] else 0
     if doc is None:
         print("no single document recorded:", rec["case"]["detail"])
         return 2
